@@ -5,7 +5,18 @@
 (* members are <<key bytes, tree, key string>> in document order.                 *)
 EXTENDS PlencDecode, FiniteSets
 
-RECURSIVE JMatch(_, _, _, _), JWhere(_, _, _, _), JMapVal(_, _, _, _)
+RECURSIVE JMatch(_, _, _, _), JWhere(_, _, _, _), JMapVal(_, _, _, _), JMatchJ(_, _)
+\* a JSON-any value (C16) against the parsed tree
+JMatchJ(x, o) ==
+  CASE x.k = "nil" -> o.k = "null"
+    [] x.k = "bool" -> o.k = "bool" /\ o.v = x.v
+    [] x.k = "int" -> o.k = "num" /\ o.t = DecText(x.i)
+    [] x.k = "float" -> o.k = "num" /\ o.f64 = x.f
+    [] x.k = "str" -> o.k = "str" /\ o.b = x.b
+    [] x.k = "num" -> o.k = "num" /\ o.t = x.b
+    [] x.k = "arr" -> o.k = "arr" /\ Len(o.e) = Len(x.e) /\ \A i \in 1..Len(x.e) : JMatchJ(x.e[i], o.e[i])
+    [] x.k = "obj" -> o.k = "obj" /\ Len(o.m) = Len(x.m) /\ \A i \in 1..Len(x.m) : \E j \in 1..Len(o.m) : o.m[j][1] = x.m[i][1] /\ JMatchJ(x.m[i][2], o.m[j][2])
+    [] OTHER -> FALSE
 PresentFields(cfg, T, v) == SelectSeq([i \in 1..Len(T.f) |-> i], LAMBDA i : T.f[i].enc /\ ~Omit(cfg, T.f[i].t, v[i]))
 StringKeyed(T) == Resolve(T.key).k = "string"
 MemberNamed(o, name) == {j \in 1..Len(o.m) : o.m[j][3] = name}
@@ -44,6 +55,7 @@ JMatch(cfg, T0, v, o) == LET T == Resolve(T0) IN
                     /\ ent.k = "obj" /\ Len(ent.m) = Cardinality(ks) + Cardinality(vs)
                     /\ (IF ks = {} THEN Omit(cfg, T.key, v.m[i][1]) ELSE JMatch(cfg, T.key, Norm(cfg, T.key, v.m[i][1], TRUE), ent.m[CHOOSE x \in ks : TRUE][2]))
                     /\ (IF vs = {} THEN Omit(cfg, T.val, v.m[i][2]) ELSE JMatch(cfg, T.val, Norm(cfg, T.val, v.m[i][2], TRUE), ent.m[CHOOSE x \in vs : TRUE][2]))
+    [] T.k \in {"jsonobj", "jsonarr"} -> JMatchJ(v, o)
     [] OTHER -> TRUE
 
 \* a map value: an absent (nil / invalid) value of a type with explicit presence is JSON null
